@@ -439,16 +439,26 @@ func runC08(p *Program, r *Report) {
 					}
 					return "NO-READ " + retErr(pa)
 				}
-				if len(we) > 0 {
-					return "READ+CLOSE"
-				}
 				if argKey(rd[0], 0) != "limitReader.r" {
 					return "READS-FROM " + argKey(rd[0], 0)
+				}
+				buf := argKey(rd[0], 1)
+				if len(we) > 0 {
+					// the budget ran out in this very call and the stream ended with it: the bytes read plus the limit error and 1009
+					last := ""
+					for _, e := range pa.Events {
+						if e.Kind == "store" && e.AddrK == "limitReader.n" {
+							last = e.Val.Key()
+						}
+					}
+					if len(we) == 1 && argKey(we[0], 1) == "1009" && keyIs(pa.Ret[0], "call:invoke io.Reader.Read@@#0") && pa.Ret[1].Key() == argKey(we[0], 2) && retErr(pa) == "nonnil" && last == "0" {
+						return "READ " + stripSites(buf) + " n=0 LIMIT-1009"
+					}
+					return "READ+CLOSE"
 				}
 				if !keyIs(pa.Ret[0], "call:invoke io.Reader.Read@@#0") || !keyIs(pa.Ret[1], "call:invoke io.Reader.Read@@#1") {
 					return "RESULT-CHANGED"
 				}
-				buf := argKey(rd[0], 1)
 				// decrement
 				dec := ""
 				for _, e := range pa.Events {
@@ -471,12 +481,59 @@ func runC08(p *Program, r *Report) {
 				case n == 0:
 					return []string{"REJECT-1009"}
 				case l > n:
-					return []string{fmt.Sprintf("READ slice(param:p,_,%d,_) n=(%d - %s)", n, n, cnt), fmt.Sprintf("READ slice(param:p,_,%d,_) n=0", n)}
+					b := fmt.Sprintf("READ slice(param:p,_,%d,_)", n)
+					return []string{fmt.Sprintf("%s n=(%d - %s)", b, n, cnt), b + " n=0", b + " n=0 LIMIT-1009"}
 				}
-				return []string{fmt.Sprintf("READ param:p n=(%d - %s)", n, cnt), "READ param:p n=0"}
+				return []string{fmt.Sprintf("READ param:p n=(%d - %s)", n, cnt), "READ param:p n=0", "READ param:p n=0 LIMIT-1009"}
 			},
-			What: "limit reader: negative allowance = unlimited pass-through; zero = the message is over the limit: error and Close(1009) without reading; positive = read at most n bytes and subtract the count (floored at 0)",
+			What: "limit reader: negative allowance = unlimited pass-through; zero = the message is over the limit: error and Close(1009) without reading; positive = read at most n bytes and subtract the count (floored at 0); when that uses the allowance up and the stream ends in the same call: the bytes, the limit error and Close(1009)",
 		})
+		// the allowance is limit+1 bytes: once it is used up the message is larger than the limit, also when the underlying
+		// reader reports the end of the stream in the same call (a flate stream whose last block is final does)
+		p.forAllPaths(r, "C08.boundary", fn, "end of stream together with the last allowed byte", Opts{},
+			"limitReader.Read passes the underlying reader's error on unchanged only if allowance remains after this read (n - count > 0) or the error is not an end-of-stream error (io.EOF / io.ErrUnexpectedEOF); otherwise a message of exactly limit+1 bytes that ends in the same Read call is reported complete",
+			func(pa *Path) (bool, string) {
+				rd := pa.Calls("invoke io.Reader.Read")
+				if len(rd) != 1 || pa.End != "return" {
+					return true, ""
+				}
+				if pa.IntAtMost("limitReader.n", -1) {
+					return true, "" // unlimited
+				}
+				uerr := rd[0].Res.Key() + "#1"
+				if pa.Ret[1].Key() != uerr {
+					return true, "" // replaced (checked by C08.table)
+				}
+				after := ""
+				for _, e := range pa.Events {
+					if e.Kind == "store" && e.AddrK == "limitReader.n" && after == "" {
+						after = e.Val.Key()
+					}
+				}
+				if after != "" && pa.IntAtLeast(after, 1) {
+					return true, ""
+				}
+				notEnd := func(sentinel string) bool {
+					if v, ok := decidedRel(pa, uerr, "==", sentinel); ok && !v {
+						return true
+					}
+					for _, e := range pa.Calls("errors.Is") {
+						if argKey(e, 0) == uerr && argKey(e, 1) == sentinel {
+							if v, ok := pa.Decided(e.Res.Key()); ok && !v {
+								return true
+							}
+						}
+					}
+					return false
+				}
+				if v, ok := decidedRel(pa, uerr, "==", "nil"); ok && v {
+					return true, ""
+				}
+				if notEnd("G:io.EOF") && notEnd("G:io.ErrUnexpectedEOF") {
+					return true, ""
+				}
+				return false, "the underlying reader's error is returned unchanged although the allowance of limit+1 bytes may be used up by this read"
+			})
 	}
 	if c, ok := p.member("StatusMessageTooBig").(*ssa.NamedConst); ok {
 		v, _ := constInt64(c.Value.Value)
@@ -515,6 +572,34 @@ func runC08(p *Program, r *Report) {
 			}
 			return true, ""
 		})
+	}
+	// the same end to end: whatever newLimitReader (and helpers) do with the argument, the value stored is 32768+1
+	if fn := p.Func("newMsgReader"); fn != nil {
+		p.forAllPaths(r, "C08.plus1", fn, "default limit as stored", Opts{Inline: p.inlineSet("newLimitReader")}, "the allowance stored by the constructor chain newMsgReader → newLimitReader is the constant 32768+1", func(pa *Path) (bool, string) {
+			st := pa.Calls("xsync.Int64.Store")
+			if len(st) != 1 || !strings.HasSuffix(argKey(st[0], 0), ".limit") {
+				return false, fmt.Sprintf("%d stores of the limit in the constructor chain", len(st))
+			}
+			if argKey(st[0], 1) != "32769" {
+				return false, "stored default allowance " + argKey(st[0], 1)
+			}
+			return true, ""
+		})
+	}
+	// the limit in force when the message arrives applies: the allowance is reloaded after the first frame header was read
+	if fn := p.Func("Conn.reader"); fn != nil {
+		p.forAllPaths(r, "C08.reset", fn, "allowance reloaded when the message arrives", Opts{Inline: p.inlineSet("msgReader.reset")},
+			"Conn.reader reloads the allowance (limitReader.reset) after readLoop returned the first frame of the message, not before waiting for it: a SetReadLimit made while a Reader waits applies to the message that arrives next", func(pa *Path) (bool, string) {
+				li := eventIndex(pa, 0, func(e *Event) bool { return isCall(e, "limitReader.reset") })
+				ri := eventIndex(pa, 0, func(e *Event) bool { return isCall(e, "Conn.readLoop") })
+				if li >= 0 && (ri < 0 || li < ri) {
+					return false, "the allowance is reloaded before the frame that starts the message was read"
+				}
+				if pa.End == "return" && retErr(pa) == "nil" && li < 0 {
+					return false, "a message is delivered without reloading the allowance"
+				}
+				return true, ""
+			})
 	}
 	if fn := p.Func("limitReader.reset"); fn != nil {
 		p.forAllPaths(r, "C08.reset", fn, "allowance reloaded", Opts{}, "limitReader.reset sets n = limit.Load() and r = its argument", func(pa *Path) (bool, string) {
